@@ -4,8 +4,11 @@
                                    before it: bottom-up) and hands Expression / ExpressionAtom / Variable nodes to
    ast/WorkingMemory.go            AddExpression / AddExpressionAtom / AddVariable: if a node with that snapshot is already
                                    registered, the registered node is used and the new one dropped; else it is registered.
-   builder/RuleBuilder.go          the finished rule entry is added to the knowledge base — or refused (duplicate name),
-                                   in which case the nodes it registered stay in the working memory (D10a).
+   builder/RuleBuilder.go          BuildRuleFromResource: KnowledgeBase.Checkpoint() before the walk; the finished rule
+   ast/KnowledgeBase.go            entries are added to the knowledge base; when the resource is rejected (duplicate
+                                   name, syntax error ...) restore() puts back the rule entries and the three snapshot
+                                   maps of the working memory as they were before the walk.  The nodes the walk
+                                   created stay on the heap as garbage: nothing points to them any more.
 
    The snapshot of a node is modelled by the tree itself (snapshots are injective on trees: C07).  Node ids are drawn
    from a counter; children get their ids before their parent, so the exported numbering (children before parents) is the
@@ -63,15 +66,26 @@ Fixpoint build_tree (t : tree) (st : bst) : bst * nat :=
 Record bkb := { k_st : bst; k_roots : list (string * nat) }.
 Definition empty_bkb : bkb := {| k_st := {| b_g := []; b_wm := []; b_next := 0 |}; k_roots := [] |}.
 
-(* an accepted rule: its entry is stored under its name *)
+(* the walk of the listener over one rule: its nodes are built and registered, its entry is stored under its name *)
 Definition add_rule (kb : bkb) (r : string * tree) : bkb :=
   let '(st, id) := build_tree (snd r) (k_st kb) in {| k_st := st; k_roots := (fst r, id) :: k_roots kb |}.
 
-(* a refused rule (duplicate name): the listener has run, the entry is not stored *)
-Definition reject_rule (kb : bkb) (r : string * tree) : bkb :=
-  let '(st, _) := build_tree (snd r) (k_st kb) in {| k_st := st; k_roots := k_roots kb |}.
+Definition walk (kb : bkb) (rs : list (string * tree)) : bkb := fold_left add_rule rs kb.
 
-Definition build_rules (rs : list (string * tree)) : bkb := fold_left add_rule rs empty_bkb.
+(* restore(): rule entries and working-memory maps of `old`; the heap (and the id supply) of `new` *)
+Definition restore (old new : bkb) : bkb :=
+  {| k_st := {| b_g := b_g (k_st new); b_wm := b_wm (k_st old); b_next := b_next (k_st new) |}; k_roots := k_roots old |}.
+
+(* BuildRuleFromResource on a resource (its rules, and whether it is accepted) *)
+Definition build_resource (kb : bkb) (res : list (string * tree) * bool) : bkb :=
+  let kb' := walk kb (fst res) in if snd res then kb' else restore kb kb'.
+
+Definition build_rules (rs : list (string * tree)) : bkb := walk empty_bkb rs.
+Definition build_history (h : list (list (string * tree) * bool)) : bkb := fold_left build_resource h empty_bkb.
+
+(* what the code did before the checkpoint existed (D10a): the walk of a refused rule without restore, entry not stored *)
+Definition walk_unrestored (kb : bkb) (r : string * tree) : bkb :=
+  let '(st, _) := build_tree (snd r) (k_st kb) in {| k_st := st; k_roots := k_roots kb |}.
 
 (* the knowledge base as Clone.v sees it.  The snapshot maps are merged into one list (their keys play no role for the
    clone); the two index maps hold only nodes of the snapshot maps (IndexVariables) and are left empty. *)
